@@ -274,10 +274,20 @@ pub fn run(ctx: &Ctx, out: &mut CaseOut) {
         if b2.ok {
             let c2 = b2.table.canonicalize(i, value_of(&spec, &b2.vars)).quantified;
             if norm(&c2) != norm(&c1) {
-                out.violation(None, "a consistent renaming of the unknowns (permuted creation / unification order) changed the canonical form".to_string(), d(&format!("first={:?}\nsecond={:?}\nperm={:?} eq_order={:?}", c1, c2, perm, eqo)));
-                return;
+                // Only the permuted *creation* order is a renaming in the statement's sense. A different unification order
+                // may legitimately resolve an unknown to a different (equivalent modulo region constraints) value: a
+                // placeholder lifetime that one order keeps is replaced by a fresh region variable in the other, when the
+                // unknown it flows into lives in a smaller universe. So the verdict is taken with the original order.
+                let mut b3 = build(&spec, &perm, &eq_ident);
+                let same_with_original_order = b3.ok && norm(&b3.table.canonicalize(i, value_of(&spec, &b3.vars)).quantified) == norm(&c1);
+                if !same_with_original_order {
+                    out.violation(None, "a consistent renaming of the unknowns (permuted creation order) changed the canonical form".to_string(), d(&format!("first={:?}\nsecond={:?}\nperm={:?} eq_order={:?}", c1, c2, perm, eqo)));
+                    return;
+                }
+                out.count("unification-order-changes-resolved-value(not a renaming; not judged)");
+            } else {
+                out.count("renaming-gives-same-form");
             }
-            out.count("renaming-gives-same-form");
         } else {
             out.count("permuted-unification-order-failed(C14/C15's subject)");
         }
